@@ -41,6 +41,39 @@ func scriptName(script []letter) string {
 	return strings.Join(names, ",")
 }
 
+// joinAt is the index of the first letter that is followed by another message letter (both
+// single messages), or -1.
+func joinAt(script []letter) int {
+	for i := 0; i+1 < len(script); i++ {
+		if script[i].kind == kMsg && script[i+1].kind == kMsg && script[i].rep <= 1 && script[i+1].rep <= 1 && script[i].pid == script[i+1].pid {
+			return i
+		}
+	}
+	return -1
+}
+
+// scriptNameSplit writes the re-segmented pair as "A+B@n".
+func scriptNameSplit(script []letter, split int) string {
+	j := joinAt(script)
+	if split == 0 || j < 0 {
+		return scriptName(script)
+	}
+	at := fmt.Sprintf("@%d", split)
+	if split < 0 {
+		at = "@half"
+	}
+	var names []string
+	for i := 0; i < len(script); i++ {
+		if i == j {
+			names = append(names, script[i].label+"+"+script[i+1].label+at)
+			i++
+			continue
+		}
+		names = append(names, script[i].label)
+	}
+	return strings.Join(names, ",")
+}
+
 func errStr(err error) string {
 	if err == nil {
 		return "ok"
@@ -64,14 +97,19 @@ func finalWait(sp *api) time.Duration {
 }
 
 // scenario builds the closed harness for one API call and one peer script.
-func scenario(sp *api, script []letter) e1lib.Scenario {
-	name := fmt.Sprintf("%s|script=%s", sp.id(), scriptName(script))
+func scenario(sp *api, script []letter) e1lib.Scenario { return scenarioSplit(sp, script, 0) }
+
+// scenarioSplit: split != 0 re-segments the first two adjacent messages of the script: the
+// first one complete plus the first n bytes of the second in one segment, the rest of the
+// second in the next segment (n = split, or half of the message for split < 0).
+func scenarioSplit(sp *api, script []letter, split int) e1lib.Scenario {
+	name := fmt.Sprintf("%s|script=%s", sp.id(), scriptNameSplit(script, split))
 	body := func() {
 		h := newHooks()
 		a, b := rt.ConnPair("local", "peer")
 		peerDone := make(chan struct{})
 		rt.Go("peer", func() {
-			runPeer(b, sp, script)
+			runPeer(b, sp, script, split)
 			rt.Close("h:peerDone", peerDone)
 		})
 		opts := []ouroboros.ConnectionOptionFunc{
@@ -241,6 +279,19 @@ func TestC15(t *testing.T) {
 				}
 				scs = append(scs, s)
 			}
+			// extra scripts: longer than the tier's enumeration bound and/or re-segmented
+			for _, ex := range sp.extra {
+				sc := sp.pick(ex.labels)
+				if ex.split == 0 && len(sc) <= ml {
+					continue // already enumerated
+				}
+				s := scenarioSplit(sp, sc, ex.split)
+				s.MinB, s.MaxB, s.Budget = 0, 0, 3*time.Minute
+				if thorough {
+					s.MinB, s.MaxB, s.Budget = 1, 1, 15*time.Minute
+				}
+				scs = append(scs, s)
+			}
 		}
 		return scs
 	})
@@ -255,8 +306,14 @@ func TestSpike(t *testing.T) {
 		if sp.maxLen > 0 {
 			ml = sp.maxLen
 		}
+		var all []e1lib.Scenario
 		for _, sc := range scripts(sp.letters, ml) {
-			s := scenario(sp, sc)
+			all = append(all, scenario(sp, sc))
+		}
+		for _, ex := range sp.extra {
+			all = append(all, scenarioSplit(sp, sp.pick(ex.labels), ex.split))
+		}
+		for _, s := range all {
 			if want != "" && s.Name != want {
 				continue
 			}
